@@ -288,4 +288,8 @@ pub fn run(ctx: &Ctx) {
     ctx.require_class("shape", "fused_centroids", 0.3);
     ctx.require_class("shape", "weighted", 0.2);
     ctx.require_class("shape", "heavy_ties", 0.2);
+    if ctx.tier == Tier::Thorough && !ctx.failed() {
+        // coverage-guided search over the same case space (libFuzzer, 8 parallel campaigns)
+        crate::engine::fuzz::run_tdigest_ops(ctx, 0, 1_600_000);
+    }
 }
